@@ -6,19 +6,31 @@ invocation of a sequence action that is Completed/Failed in the crash image or w
 error; none inside a sequence / block that is finished in the crash image; none at all when the plan is not durably
 Running).  Theorems: coq/resume/props/C09.v (every well-formed crash image) and coq/imgwf/props/C09.v (the FULL
 statement: every write-prefix crash image of every trace accepted by the uninterrupted-run automaton is well-formed -
-a reachable-state invariant of coq/engine's automaton - hence c09_no_reexecution and c09_crash_chain_full).
+a reachable-state invariant of coq/engine's automaton - hence c09_no_reexecution and c09_crash_chain_full) and
+coq/chain/props/C09.v (every crash image left by a crashed RECOVERY on which the plan is not terminal is well-formed -
+a reachable-state invariant of the RESUMED automaton, any deviation flags - hence c09_crash_chain_unconditional: any
+number of crashes, no premise on any image).
 Harness: harness/cmd/recover (every write prefix of every recorded run is a crash point; double crashes; thorough:
 file-backed stores and real SIGKILLs of a child).  See props/recover_common.py.
 """
 from vf import framework as fw
 from props import recover_common as rc
 
-FULL = "imgwf"      # coq/imgwf: the lemma about coq/engine that the full statement needs, and the full theorems
+# coq/imgwf: the lemma about coq/engine that the full statement needs, and the full theorems (first crash);
+# coq/chain: the same for the resumed automaton, and the chain of crashes with no premise left
+FULL_PROJECTS = (("imgwf", "full_statement"), ("chain", "chain_statement"))
 
 
 def check_full(ctx):
-    """Full .vo build of coq/imgwf (and of the projects it cites: c04, c06) and re-check of coq/imgwf/props/C09.v
-    with Print Assumptions; its theorems are obligations of this check."""
+    """Full .vo build of coq/imgwf and coq/chain (and of the projects they cite: c04, c06) and re-check of their
+    props/C09.v with Print Assumptions; their theorems are obligations of this check."""
+    good = True
+    for proj, key in FULL_PROJECTS:
+        good = check_full_one(ctx, proj, key) and good
+    return good
+
+
+def check_full_one(ctx, FULL, key):
     ok, log, where = fw.coq_build([FULL])
     ctx.oblige("full .vo build of coq/%s (make)" % FULL, ok)
     if not ok:
@@ -29,8 +41,8 @@ def check_full(ctx):
     for t in pc["theorems"]:
         ctx.oblige("theorem %s (%s)" % (t, pc["file"]), good)
     if isinstance(ctx.assumptions, dict):
-        ctx.assumptions["full_statement"] = dict(file=pc["file"], theorems=pc["theorems"],
-                                                 closed_under_global_context=pc["closed"], axioms=pc["axioms"])
+        ctx.assumptions[key] = dict(file=pc["file"], theorems=pc["theorems"],
+                                    closed_under_global_context=pc["closed"], axioms=pc["axioms"])
     if not good:
         ctx.violation(dict(kind="property-theorem-does-not-check", broken=pc["file"], log=pc["log"]), nofail=True)
     return good
